@@ -1,4 +1,5 @@
 import Walrus.Run
+import Walrus.Replace
 import Walrus.Driver.ModuleD
 
 /-! `exec <seed> <rounds> <gas> <module text>` → the observation of the scripted run;
@@ -90,5 +91,33 @@ def handleElideTie (ws : List String) : String :=
          | _, _ => some s!"ill-nested {p.1}")
       | _, _ => some s!"missing {p.1}"
     if bad.isEmpty then "elide-ok" else "differs: " ++ joinWith "," bad
+
+
+/-! `replace imp|exp <id> <seed> <rounds> <gas> <body ops …> ;; <module A> || <module B>`:
+    the specified result of the edit on A and the real output B must be observed identically -/
+def handleReplace (ws : List String) : String :=
+  match ws with
+  | kind :: ids :: sd :: rn :: gs :: rest =>
+    match ids.toNat?, sd.toNat?, rn.toNat?, gs.toNat? with
+    | some k, some seed, some rounds, some gas =>
+      let bodyWs := rest.takeWhile (· ≠ ";;")
+      let (a, b) := splitAtBar (rest.drop (bodyWs.length + 1))
+      let mA := parseModule a
+      let mB := parseModule b
+      match mkEnv mA, structureBody (bodyWs.map parseOp) with
+      | some E, some body =>
+        let spec : Option String :=
+          if kind = "imp" then
+            (E.replaceImported k body).map fun E' => observeWith mA E'.fsigs (invoke E' gas) seed rounds
+          else
+            (replaceExported mA E k body).map fun p => observeWith p.1 p.2.fsigs (invoke p.2 gas) seed rounds
+        (match spec with
+         | none => "edit-rejected"
+         | some os =>
+           let ob := observe mB seed rounds gas
+           if os = ob then "same" else firstDiff (os.splitOn "; ") (ob.splitOn "; ") 0)
+      | _, _ => "ill-formed"
+    | _, _, _, _ => "bad-op"
+  | _ => "bad-op"
 
 end Walrus.Driver
